@@ -33,6 +33,9 @@ def check(ck):
         arguments_coercers_positional(ck, repo)
     with ck.rule("R3"):
         _siblings(ck, repo)
+        # a default written in the SDL is a literal too: its text must be what the SDL says (block strings are literal)
+        from .c11 import string_token_rows
+        string_token_rows(ck, repo)
     with ck.rule("R4"):
         _null_and_variable(ck, repo)
     with ck.rule("R5"):
